@@ -114,6 +114,22 @@ def run(pid, tier):
                             want = REGISTRY.get(low, []) if in_table else ["application/octet-stream"]
                             if ty not in want:
                                 oracle_fail.append((h, "mime03: suffix %r is served as %s, registered: %s" % (suffix, ty, want), None)); break
+    # files reached through symbolic links whose targets carry another suffix or none: the type follows the name the file was added under.
+    # Implementation only (mime03 build): the `mime:` line must be the one a regular file of that name gets.
+    import build_lib
+    lscen = []
+    for nm, target in [("logo.png", "3f9a1c.blob"), ("data.json", "data.js"), ("site.css", "hashed-0a1b2c"), ("app.JS", "bundle.min.css")]:
+        for entry in ("f", "a"):
+            prog = [('s',), ('f', 'st/' + nm)] if entry == "f" else [('s',), ('a', 'st/' + nm, 'pub/' + nm)]
+            lscen.append([('W', 'store/' + target, b"content"), ('M', 'st'), ('Y', 'st/' + nm, '../store/' + target), ('R', prog)])
+            lscen.append([('W', 'st/' + nm, b"content"), ('R', prog)])
+    lr = build_lib.run_scenarios(lscen, harness=h3)
+    for k in range(0, len(lr), 2):
+        get = lambda r: re.findall(rb"\n  mime: &mime::([A-Za-z0-9_:]+),\n", ((([x for x in r["runs"] if x["kind"] == "R"] or [{}])[0].get("after") or {}).get(b"templates/statics.rs") or (b"", ""))[0] or b"")
+        chk.count(("link " + build_lib.scenario_line(lscen[k])).encode(), True)
+        if get(lr[k]) != get(lr[k + 1]) or not get(lr[k + 1]):
+            oracle_fail.append((build_lib.scenario_line(lscen[k]), "mime03: a file added as %s through a symbolic link to a file of another suffix gets %s, a regular file of that name %s" % (
+                lscen[k][2][1], get(lr[k]), get(lr[k + 1])), None))
     for h in hist[:2] + hist[-2:]:
         chk.sample(dict(ops=[(op[0], op[1]) for op in h]))
     chk.cov["exhaustive"] = True
